@@ -7,6 +7,7 @@ import Proofs.OptionsSpec
 import Proofs.OptionsPost
 import Proofs.OptionsValues
 import Proofs.GitParamsMap
+import Proofs.ThemeChoice
 /-!
 C13 — option values resolve by the documented precedence, deterministically.
 
@@ -851,6 +852,115 @@ theorem params_entries_not_read_as_given :
     (String.ofList (GitParams.fmtList [(true, ⟨"user.name".toList, some "delta.file-modified-label=y".toList⟩)]) =
         "'user.name'='delta.file-modified-label=y'" ∧
       GitParams.parsePairs "'user.name'='delta.file-modified-label=y'" = some [("delta.file-modified-label", "y")]) := by
+  decide
+
+/-! ### Theme and colour mode: `--light` / `--dark` / `--syntax-theme`, git config, `BAT_THEME`, detection (T11 (ii)) -/
+
+/-- `theme_choice_fatal_iff`. The resolution ends in `fatal("--light and --dark cannot be used together.")` exactly when both
+    flags are on the command line, or neither is and the git config (main section or enabled features, looked up
+    separately for the two options) turns both on; no other input can stop it (the decision `match` always has an arm). -/
+theorem theme_choice_fatal_iff (i : ThemeChoice.In) :
+    (ThemeChoice.run i = .fatal ↔
+      (i.cliLight = true ∧ i.cliDark = true) ∨
+      (i.cliLight = false ∧ i.cliDark = false ∧ i.git.light = some true ∧ i.git.dark = some true)) ∧
+    ThemeChoice.run i ≠ .stuck := by
+  rw [ThemeChoice.run_spec]
+  obtain ⟨cl, cd, ct, ⟨gl, gd, gt⟩, bat, sd, det⟩ := i
+  cases cl <;> cases cd <;> rcases gl with _ | _ | _ <;> rcases gd with _ | _ | _ <;>
+    simp [ThemeChoice.lightOf, ThemeChoice.darkOf]
+
+/-- `cli_light_dark_final`. `--light` (without `--dark`) on the command line gives light mode, `--dark` dark mode — whatever
+    `light` / `dark` in the git config, `BAT_THEME`, the terminal and the chosen theme say: a lower-priority source never
+    contradicts the flag, and the git config's `light` / `dark` are not even consulted. -/
+theorem cli_light_dark_final (i : ThemeChoice.In) (h : i.cliLight ≠ i.cliDark) :
+    ∃ t, ThemeChoice.run i =
+      .chosen ⟨i.cliLight, i.cliDark, ThemeChoice.themeOf i⟩ (if i.cliLight then .light else .dark) t := by
+  rw [ThemeChoice.run_spec]
+  obtain ⟨cl, cd, ct, g, bat, sd, det⟩ := i
+  cases cl <;> cases cd <;> simp at h <;>
+    simp [ThemeChoice.lightOf, ThemeChoice.darkOf, ThemeChoice.askedMode, ThemeChoice.finalMode]
+
+/-- `syntax_theme_precedence`. When the resolution succeeds, `opt.syntax_theme` is the first of: `--syntax-theme` on the
+    command line, `syntax-theme` in the git config (main section, then enabled features), `BAT_THEME`; the theme used is
+    that one, and only if there is none the default of the colour mode (documented: command line > gitconfig > BAT_THEME >
+    default). -/
+theorem syntax_theme_precedence (i : ThemeChoice.In) (s : ThemeChoice.St) (m : ThemeChoice.Mode) (t : String)
+    (h : ThemeChoice.run i = .chosen s m t) :
+    s.theme = i.cliTheme.or (i.git.theme.or i.bat) ∧
+    t = (match s.theme with
+         | some x => x
+         | none => if m = .light then Generated.ThemeChoice.defaultLight else Generated.ThemeChoice.defaultDark) := by
+  rw [ThemeChoice.run_spec] at h
+  split at h
+  · cases h
+  · split at h
+    · cases h
+    · injection h with hs hm ht
+      subst hs hm ht
+      refine ⟨rfl, ?_⟩
+      simp only [ThemeChoice.finalTheme, ThemeChoice.finalMode]
+      cases ThemeChoice.themeOf i with
+      | some x => rfl
+      | none =>
+        rcases ThemeChoice.askedMode i with _ | _ | _ <;> simp
+
+/-- `color_mode_precedence`. When the resolution succeeds the colour mode is decided by the first of: `light` / `dark` (the
+    command line if it gave either flag, otherwise the git config), the terminal (only if `should_detect_color_mode` and
+    the query answered), the chosen theme (light iff it is one of the listed light themes or its name contains `light`),
+    else dark. -/
+theorem color_mode_precedence (i : ThemeChoice.In) (s : ThemeChoice.St) (m : ThemeChoice.Mode) (t : String)
+    (h : ThemeChoice.run i = .chosen s m t) :
+    s.light = (if i.cliLight || i.cliDark then i.cliLight else i.git.light.getD false) ∧
+    s.dark = (if i.cliLight || i.cliDark then i.cliDark else i.git.dark.getD false) ∧
+    m = (if s.light then .light else if s.dark then .dark
+         else match (if i.shouldDetect then i.detected else none) with
+           | some d => d
+           | none => match s.theme with
+             | some x => if ThemeChoice.isLightTheme x then .light else .dark
+             | none => .dark) := by
+  rw [ThemeChoice.run_spec] at h
+  split at h
+  · cases h
+  · split at h
+    · cases h
+    · injection h with hs hm ht
+      subst hs hm ht
+      refine ⟨rfl, rfl, ?_⟩
+      simp only [ThemeChoice.finalMode, ThemeChoice.askedMode]
+      cases ThemeChoice.lightOf i <;> cases ThemeChoice.darkOf i <;> simp <;>
+        (cases (if i.shouldDetect = true then i.detected else none) <;> rfl)
+
+/-- `syntax_theme_from_main_section`. Tie to the sources of C13: with a git config in use, `syntax-theme` set in the main
+    section — in the file or by `git -c` — and not on the command line, that value is `opt.syntax_theme`, whatever the
+    enabled features and `BAT_THEME` say. -/
+theorem syntax_theme_from_main_section (π : List Name) (inp : Inputs) (g : GitCfg) (r : String)
+    (bat : Option String) (sd : Bool) (det : Option ThemeChoice.Mode)
+    (hg : finalConfig inp = some g) (hcli : lookup "syntax-theme" inp.cli = none)
+    (hm : g.getT .optString none "syntax-theme" = some r) :
+    ThemeChoice.themeOf (ThemeChoice.inOf π inp bat sd det) = some r := by
+  simp [ThemeChoice.themeOf, ThemeChoice.inOf, ThemeChoice.gitVals, ThemeChoice.gitLookup, hg, hcli, hm, firstSome]
+
+/-- `BAT_THEME=GitHub`, `[delta] syntax-theme = Nord, features = a`, `[delta "a"] light = true, syntax-theme = zenburn`:
+    theme from the main section, light mode from the feature; with `--dark` the flag wins. -/
+def themeInputs : Inputs :=
+  { noInputs with
+    configFile := some
+      { main := [("syntax-theme", "Nord"), ("features", "a")],
+        sections := [("a", [("light", "true"), ("syntax-theme", "zenburn")])], other := [] } }
+
+example : ThemeChoice.run (ThemeChoice.inOf sortedNames themeInputs (some "GitHub") false none) =
+    .chosen ⟨true, false, some "Nord"⟩ .light "Nord" := by decide
+example : ThemeChoice.run (ThemeChoice.inOf sortedNames { themeInputs with cli := [("dark", "true")] } (some "GitHub")
+    true (some .light)) = .chosen ⟨false, true, some "Nord"⟩ .dark "Nord" := by decide
+-- nothing but BAT_THEME: its theme, and the mode inferred from it; nothing at all: dark and the dark default
+example : ThemeChoice.run (ThemeChoice.inOf sortedNames noInputs (some "Solarized (light)") false none) =
+    .chosen ⟨false, false, some "Solarized (light)"⟩ .light "Solarized (light)" ∧
+    ThemeChoice.run (ThemeChoice.inOf sortedNames noInputs none false none) =
+    .chosen ⟨false, false, none⟩ .dark "Monokai Extended" := by decide
+-- `[delta] light = true` with a lower-priority feature saying `dark = true`: an error, not the main section's choice
+example : ThemeChoice.run (ThemeChoice.inOf sortedNames
+    { noInputs with configFile := some { main := [("light", "true"), ("features", "a")],
+                                         sections := [("a", [("dark", "true")])], other := [] } } none false none) = .fatal := by
   decide
 
 end C13
